@@ -40,6 +40,7 @@ def main():
         ctx.notes['translator_selfcheck'] = dict(_sx.SELFCHECKS)      # the translations, evaluated numerically at random points, reproduce the code
     gate = core.proof_gate(a.pid, thorough=(a.tier == 'thorough'))
     gate['failures'] = pre_fail + gate['failures']
+    if pre_fail: gate['discharged'] = []      # the theorems speak about generated definitions that could not be re-derived from the current source
     try:
         mod.run(ctx)
     except core.LeanError as e:
